@@ -6,7 +6,9 @@ P="$1"; shift
 cd /repo || exit 2
 if ! git diff --quiet; then echo "repo has uncommitted changes" >&2; exit 2; fi
 git apply "$P" || { echo "patch does not apply: $P" >&2; exit 2; }
-trap 'git -C /repo checkout -- . ; git -C /repo clean -fdq' EXIT
+# keep the evidence of the unchanged tree: checks run against a mutant must not replace it
+EVB=$(mktemp -d); cp -a /verif/evidence/. "$EVB"/ 2>/dev/null
+trap 'git -C /repo checkout -- . ; git -C /repo clean -fdq; rm -rf /verif/evidence; mkdir -p /verif/evidence; cp -a "$EVB"/. /verif/evidence/; rm -rf "$EVB"' EXIT
 export GOFLAGS=-mod=mod GOPROXY=off GOSUMDB=off GOTOOLCHAIN=local
 if ! go build ./... 2>/tmp/mut-build.log; then echo "MUTANT $(basename $P): does not compile"; head -5 /tmp/mut-build.log; exit 3; fi
 if [ -z "${SKIP_BASELINE:-}" ]; then
